@@ -33,10 +33,16 @@ STAT_NAMES = [
     "records", "child_and_parent_both_placed", "child_starts_exactly_when_allowed", "running_or_scheduled_parent",
     "unplaced_parent", "hopeless_task", "cancel_answer", "finishes_exactly_at_deadline", "slower_strategy_chosen",
     "deadline_exactly_tight", "some_task_placed", "second_worker_used",
+    "scheduled_task_replanned", "scheduled_task_moved", "batch_placed", "batch_members_with_different_deadlines",
+    "later_invocation", "replanned_finishes_exactly_at_deadline",
+    "later_invocation_hopeless_task", "later_invocation_deadline_exactly_tight", "later_invocation_finishes_exactly_at_deadline",
 ]
 GUROBI_POLICIES = ("ILP", "ILP_RTG", "TSG")
 MODEL_POLICIES = GUROBI_POLICIES + ("Z3", "TSC")
 SPEC_TASK_FIELDS = ("state", "release", "deadline", "strats", "parents", "fin", "cur", "offered", "dec", "must", "dlenf")
+# multi-invocation scenarios / batching (C12): tasks of one work profile ("prof", a name) share their strategies and can be
+# batched by a strategy with batch size "bs" > 1; "phase" = the invocation before which the task is released
+TASK_STATES = {1: "VIRT", 2: "REL", 3: "SCHED", 4: "RUN", 7: "DONE", 8: "CANC"}
 
 
 @contextlib.contextmanager
@@ -89,10 +95,18 @@ def mk_inst(name, policy, tasks, workers, now=3, horizon=None, grid=1, enforce=T
 
 def spec_inst(inst):
     """the part of an instance the specification knows about"""
+    profs = {}
+    tasks = []
+    for t in inst["tasks"]:
+        d = {k: t[k] for k in SPEC_TASK_FIELDS}
+        d["strats"] = [{"dem": s["dem"], "rt": s["rt"], "bs": s.get("bs", 1)} for s in t["strats"]]
+        # prof: 0 = a profile of its own; tasks with the same positive number share a work profile (batching)
+        d["prof"] = profs.setdefault(t["prof"], len(profs) + 1) if t.get("prof") else 0
+        tasks.append(d)
     return {
         "policy": inst["policy"], "enforce": bool(inst["enforce"]), "now": inst["now"], "grid": inst["grid"],
-        "horizon": inst["horizon"], "workers": inst["workers"],
-        "tasks": [{k: t[k] for k in SPEC_TASK_FIELDS} for t in inst["tasks"]],
+        "horizon": inst["horizon"], "workers": inst["workers"], "step": inst.get("step", 1),
+        "batching": bool(inst.get("opts", {}).get("batching", False)), "tasks": tasks,
     }
 
 
@@ -116,18 +130,28 @@ class World:
         self.pools = N.WorkerPools([self.pool])
         self.widx = {w.id: i + 1 for i, w in enumerate(self.workers)}
         self.tasks, self.strats, self.profiles = [], [], []
+        shared = {}
         for ti, t in enumerate(inst["tasks"]):
-            sts = [
-                N.ExecutionStrategy(
-                    resources=N.Resources(resource_vector={self.res: s["dem"]}), batch_size=1, runtime=us(s["rt"])
+            if t.get("prof") and t["prof"] in shared:
+                prof, sts = shared[t["prof"]]  # tasks of one work profile: the same WorkProfile / strategy objects
+                if [(s["dem"], s["rt"], s.get("bs", 1)) for s in t["strats"]] != [
+                    (s["dem"], s["rt"], s.get("bs", 1)) for s in inst["tasks"][self.profiles.index(prof)]["strats"]
+                ]:
+                    raise tlc.TLCMachineryError(f"{inst['name']}: tasks of profile {t['prof']} with different strategies")
+            else:
+                sts = [
+                    N.ExecutionStrategy(
+                        resources=N.Resources(resource_vector={self.res: s["dem"]}), batch_size=s.get("bs", 1), runtime=us(s["rt"])
+                    )
+                    for s in t["strats"]
+                ]
+                loading = [N.ExecutionStrategy(resources=N.Resources(), batch_size=1, runtime=us(0))]
+                prof = N.WorkProfile(
+                    name=str(t["prof"]) if t.get("prof") else f"p{ti + 1}", execution_strategies=N.ExecutionStrategies(strategies=sts),
+                    loading_strategies=N.ExecutionStrategies(strategies=loading),
                 )
-                for s in t["strats"]
-            ]
-            loading = [N.ExecutionStrategy(resources=N.Resources(), batch_size=1, runtime=us(0))]
-            prof = N.WorkProfile(
-                name=f"p{ti + 1}", execution_strategies=N.ExecutionStrategies(strategies=sts),
-                loading_strategies=N.ExecutionStrategies(strategies=loading),
-            )
+                if t.get("prof"):
+                    shared[t["prof"]] = (prof, sts)
             graph = t.get("graph", "G")
             task = N.Task(
                 name=f"T{ti + 1}", task_graph=graph, job=N.Job(name=f"T{ti + 1}", profile=prof), profile=prof,
@@ -175,6 +199,79 @@ class World:
                 task.step(us(cur["s"]), us(strat.runtime.time))
                 task.finish(us(t["fin"]))
 
+        self.clock = now
+
+    # -- multi-invocation scenarios: what the Simulator does between two scheduler invocations ----------
+    def release(self, ti, time):
+        self.tasks[ti].release(us(time))
+
+    def apply(self, placements, now):
+        """SCHEDULER_FINISHED (simulator.py __handle_scheduler_finish, drop_skipped_tasks off): a CANCEL_TASK placement
+        cancels the task (with its dependents), a placed PLACE_TASK placement (re)schedules the task, an unplaced one
+        unschedules a SCHEDULED task and leaves a RELEASED one alone."""
+        N = self.N
+        PT, S = N.Placement.PlacementType, N.TaskState
+        for pl in placements:
+            if pl.placement_type == PT.CANCEL_TASK:
+                if pl.task.state in (S.VIRTUAL, S.RELEASED, S.SCHEDULED):
+                    self.workload.get_task_graph(pl.task.task_graph).cancel(pl.task, us(now))
+            elif pl.placement_type == PT.PLACE_TASK:
+                if pl.is_placed():
+                    if pl.task.state in (S.RELEASED, S.SCHEDULED):
+                        pl.task.schedule(us(now), pl)
+                elif pl.task.state == S.SCHEDULED:
+                    pl.task.unschedule(us(now))
+
+    def advance(self, to):
+        """TASK_PLACEMENT at the planned time (WorkerPool.place_task + Task.start), clock steps (WorkerPool.step),
+        TASK_FINISHED (WorkerPool.remove_task + Task.finish) up to time `to`; at equal times finishes come before
+        placements and placements before the scheduler (EventType order).  Returns None, or why the plan could not be
+        carried out (a worker that is not ready: the Simulator would defer the placement; the scenario stops there)."""
+        S = self.N.TaskState
+        US = self.N.EventTime.Unit.US
+        c = self.clock
+        while True:
+            due = [t for t in self.tasks if t.state == S.SCHEDULED and t.current_placement.placement_time.to(US).time <= c]
+            for task in sorted(due, key=lambda t: (t.current_placement.placement_time.to(US).time, t.unique_name)):
+                pl = task.current_placement
+                if not self.pool.place_task(task, execution_strategy=pl.execution_strategy, worker_id=pl.worker_id):
+                    return f"worker not ready for {task.unique_name} at {c}"
+                task.start(us(c))
+            if c >= to:
+                break
+            for task in self.pool.step(us(c), us(1)):
+                self.pool.remove_task(current_time=us(c + 1), task=task)
+                task.finish()
+            c += 1
+        self.clock = to
+        return None
+
+    def snapshot(self, inst, now, step):
+        """the instance as it is at `now`: states / current placements / expected finishes read from the real tasks"""
+        US = self.N.EventTime.Unit.US
+        inst = json.loads(json.dumps(inst))
+        inst["now"], inst["step"] = now, step
+        for ti, t in enumerate(inst["tasks"]):
+            task = self.tasks[ti]
+            st = TASK_STATES.get(task.state.value)
+            if st is None:
+                raise tlc.TLCMachineryError(f"{inst['name']}: task {ti + 1} in state {task.state}")
+            t["state"] = st
+            t["release"] = -1 if st == "VIRT" else task.release_time.to(US).time
+            t["cur"], t["fin"] = {"w": 0, "s": 0, "k": 0}, -1
+            pl = task.current_placement
+            if st in ("SCHED", "RUN", "DONE") and pl is not None:
+                wid = pl.worker_id
+                if wid is None:  # the greedy policies name the pool only: the worker the pool put the task on
+                    wid = next((w.id for w in self.workers if any(x is task for x in w.get_placed_tasks())), None)
+                t["cur"] = {
+                    "w": self.widx.get(wid, 1 if len(self.workers) == 1 else 0),
+                    "s": (task.start_time if st != "SCHED" else pl.placement_time).to(US).time,
+                    "k": self.strat_index(ti, pl.execution_strategy),
+                }
+                t["fin"] = self.expected_finish(ti)
+        return inst
+
     # -- projection ---------------------------------------------------------
     def expected_finish(self, ti):
         """expected finish of a RUNNING / SCHEDULED task read from the real task"""
@@ -212,7 +309,7 @@ def build_scheduler(inst, world):
         return schedulers.ILPScheduler(
             preemptive=False, runtime=zero, lookahead=la, enforce_deadlines=inst["enforce"],
             retract_schedules=o["retract"], release_taskgraphs=o["rtg"],
-            goal="max_goodput" if inst["enforce"] else "max_slack", time_limit=lim,
+            goal="max_goodput" if inst["enforce"] else "max_slack", time_limit=lim, batching=bool(o.get("batching", False)),
         )
     if pol == "TSG":
         return schedulers.TetriSchedGurobiScheduler(
@@ -223,7 +320,7 @@ def build_scheduler(inst, world):
     if pol == "TSC":
         return schedulers.TetriSchedCPLEXScheduler(
             runtime=zero, lookahead=la, enforce_deadlines=inst["enforce"], retract_schedules=o["retract"],
-            time_limit=lim, time_discretization=us(inst["grid"]),
+            time_limit=lim, time_discretization=us(inst["grid"]), batching=bool(o.get("batching", False)),
             plan_ahead=us(o["plan_ahead"]) if o["plan_ahead"] >= 0 else N.EventTime(-1, N.EventTime.Unit.US),
         )
     if pol == "Z3":
@@ -240,11 +337,15 @@ def build_scheduler(inst, world):
     if pol == "CW":
         s = schedulers.ClockworkScheduler(runtime=zero)
         # the models are loaded on every worker by the harness (zero-cost loading strategy)
+        profiles = []
+        for prof in world.profiles:
+            if all(prof is not p for p in profiles):
+                profiles.append(prof)
         for w in world.workers:
-            for prof in world.profiles:
+            for prof in profiles:
                 w.load_profile(prof, N.ExecutionStrategy(resources=N.Resources(), batch_size=1, runtime=us(0)))
             w.step(us(0), us(1))
-        s.start(us(0), world.profiles, world.pools)
+        s.start(us(0), profiles, world.pools)
         return s
     raise ValueError(pol)
 
@@ -274,10 +375,13 @@ class Capture:
     """Wraps gurobipy.Model.optimize / z3.Optimize.check / docplex Model.solve while active and
     keeps the model objects the schedulers hand to the solver."""
 
-    def __init__(self, cplex=False):
+    def __init__(self, cplex=False, batching=False):
         self.gurobi, self.z3, self.cplex = [], [], []
+        self.batches = []  # batching=True: the BatchTasks the scheduler built (name, member tasks in order, strategy, state)
         self._want_cplex = cplex
+        self._want_batches = batching
         self._cs = None
+        self._cb = []
 
     def __enter__(self):
         import gurobipy as gp
@@ -309,12 +413,38 @@ class Capture:
             self._cpx = cpx
             self._cs = cpx.Model.solve
 
+            _cache_platform_probe()
+
             def solve(mdl, *a, **k):
                 # TetriSchedCPLEXScheduler calls optimizer.end() before returning: keep a clone
                 cap.cplex.append(mdl.clone())
+                # as for Gurobi: one solver thread (the scheduler asks for cpu_count() of them on a shared machine)
+                mdl.context.cplex_parameters.threads = 1
                 return cap._cs(mdl, *a, **k)
 
             cpx.Model.solve = solve
+        if self._want_batches:
+            from schedulers.ilp_scheduler import ILPScheduler
+            from schedulers.tetrisched_cplex_scheduler import TetriSchedCPLEXScheduler
+
+            def wrap(cls):
+                orig = cls._create_batch_task_variables
+
+                def create(sched, *a, **k):
+                    res = orig(sched, *a, **k)
+                    for name, var in res.items():
+                        bt = var.task
+                        cap.batches.append({
+                            "name": name, "tasks": list(bt.tasks), "strategy": bt.available_execution_strategies[0],
+                            "state": bt.state.value, "deadline": bt.deadline,
+                        })
+                    return res
+
+                cls._create_batch_task_variables = create
+                cap._cb.append((cls, orig))
+
+            wrap(ILPScheduler)
+            wrap(TetriSchedCPLEXScheduler)
         return self
 
     def __exit__(self, *a):
@@ -322,9 +452,25 @@ class Capture:
         self._z3.Optimize.check = self._zc
         if self._cs is not None:
             self._cpx.Model.solve = self._cs
+        for cls, orig in self._cb:
+            cls._create_batch_task_variables = orig
 
 
 _QUIET_DONE = False
+_PLATFORM_CACHED = False
+
+
+def _cache_platform_probe():
+    """every docplex Model asks platform.architecture(), which runs file(1) in a subprocess: ask once per process"""
+    global _PLATFORM_CACHED
+    if _PLATFORM_CACHED:
+        return
+    _PLATFORM_CACHED = True
+    import functools
+    import platform
+
+    platform.architecture = functools.lru_cache(maxsize=None)(platform.architecture)
+
 
 
 def quiet_gurobi():
@@ -362,6 +508,14 @@ def realize(inst):
         quiet_gurobi()
     world = World(inst)
     sched = build_scheduler(inst, world)
+    return call_policy(inst, world, sched)
+
+
+def call_policy(inst, world, sched):
+    """one real `schedule()` call on the state the world is in; projection of the answer"""
+    N = ns()
+    pol = inst["policy"]
+    batching = bool(inst["opts"].get("batching", False))
     inst = json.loads(json.dumps(inst))
     info = {}
     off = offered_tasks(inst, world, sched)
@@ -372,16 +526,31 @@ def realize(inst):
         t["dec"] = bool(t["offered"] or t["must"])
         if t["state"] in ("RUN", "SCHED", "DONE"):
             t["fin"] = world.expected_finish(ti)
-    handle = {"world": world, "sched": sched, "model": None, "kind": None}
+    handle = {"world": world, "sched": sched, "model": None, "kind": None, "placements": []}
     dec = [{"kind": "none", "w": 0, "s": 0, "k": 0} for _ in inst["tasks"]]
     out = io.StringIO()
-    with Capture(cplex=(pol == "TSC")) as cap:
+    with Capture(cplex=(pol == "TSC"), batching=batching) as cap:
         try:
             with contextlib.redirect_stdout(out):
                 placements = sched.schedule(us(inst["now"]), world.workload, world.pools)
         except Exception as ex:  # a crash is C10's business; here the call has no answer
             info["raised"] = f"{type(ex).__name__}: {ex}"[:300]
             placements = []
+    handle["placements"] = list(placements)
+    if batching:
+        # the batches of this call as the scheduler built them (member order matters: the scheduler reads members[0])
+        handle["batches"] = [
+            {
+                "name": b["name"], "members": [world.tix[id(t)] for t in b["tasks"] if id(t) in world.tix],
+                "strategy": b["strategy"], "state": b["state"],
+            }
+            for b in cap.batches
+        ]
+        info["batches"] = [
+            {"name": b["name"], "members": b["members"], "state": TASK_STATES.get(b["state"], str(b["state"])),
+             "rt": b["strategy"].runtime.to(N.EventTime.Unit.US).time, "bs": b["strategy"].batch_size}
+            for b in handle["batches"]
+        ]
     PT = N.Placement.PlacementType
     for pl in placements:
         if pl.placement_type not in (PT.PLACE_TASK, PT.CANCEL_TASK):
@@ -413,7 +582,7 @@ def realize(inst):
     if pol in ("ILP", "ILP_RTG"):
         miss = getattr(sched, "_allowed_to_miss_deadlines", set())
         for ti, t in enumerate(inst["tasks"]):
-            t["dlenf"] = bool(inst["enforce"] and not (inst["opts"]["rtg"] and world.tasks[ti].task_graph in miss))
+            t["dlenf"] = bool(inst["enforce"] and not ((inst["opts"]["rtg"] or batching) and world.tasks[ti].task_graph in miss))
     else:
         for t in inst["tasks"]:
             t["dlenf"] = bool(inst["enforce"])
@@ -427,6 +596,46 @@ def realize(inst):
     elif pol == "TSC" and cap.cplex:
         handle["model"], handle["kind"] = cap.cplex[-1], "cplex"
     return inst, dec, info, handle
+
+
+def realize_steps(inst):
+    """A multi-invocation scenario: inst["steps"] = [now_1 <= now_2 <= ...]; task["phase"] = i > 1: the task is released
+    (at task["rel_at"]) before invocation i.  One scheduler object; between two invocations the answer is applied to the
+    real tasks / workers the way the Simulator does (World.apply / World.advance).  Returns one
+    (instance as it is at invocation i, decisions, info, handle) per invocation carried out."""
+    import random
+
+    import_repo()
+    if inst["policy"] in GUROBI_POLICIES:
+        quiet_gurobi()
+    # the ids of the real Task objects are random draws; they fix the iteration order of the schedulers' task sets
+    random.seed(f"{inst.get('salt', 0)}:{inst['name']}")
+    steps = inst["steps"]
+    base = json.loads(json.dumps(inst))
+    base["now"] = steps[0]
+    for t in base["tasks"]:
+        if t.get("phase", 1) > 1:
+            t["state"], t["release"] = "VIRT", -1
+    world = World(base)
+    sched = build_scheduler(base, world)
+    out = []
+    for i, now in enumerate(steps, start=1):
+        why = world.advance(now)
+        if why:
+            if out:
+                out[-1][2]["stopped"] = why
+            break
+        for ti, t in enumerate(base["tasks"]):
+            if t.get("phase", 1) == i and i > 1:
+                world.release(ti, t.get("rel_at", now))
+        snap = world.snapshot(base, now, i)
+        snap["name"] = f"{inst['name']}@{i}"
+        r = call_policy(snap, world, sched)
+        out.append(r)
+        if r[2].get("raised"):
+            break
+        world.apply(r[3]["placements"], now)
+    return out
 
 
 # ---------------------------------------------------------------------------
@@ -579,6 +788,156 @@ class GurobiView:
         return out
 
 
+def _group_plan(inst, units, dtasks, d):
+    """A per-task plan in terms of the batches of a batching model.  Returns {unit index: (w, s)} for the batches
+    that are placed, or None when the plan cannot be expressed (tasks placed together that are no batch of the model)."""
+    groups = {}
+    for t in dtasks:
+        p, w, s, k = d[t - 1]
+        if p == 1:
+            groups.setdefault((w, s, k), []).append(t)
+    chosen = {}
+    for (w, s, k), members in groups.items():
+        rest = sorted(members)
+        # bs = 1: every member is a batch of its own; bs > 1: the members are exactly one batch
+        want = [[t] for t in rest] if inst["tasks"][rest[0] - 1]["strats"][k - 1].get("bs", 1) == 1 else [rest]
+        for ms in want:
+            ix = next((i for i, u in enumerate(units) if u["k"] == k and sorted(u["members"]) == ms and i not in chosen), None)
+            if ix is None:
+                return None
+            chosen[ix] = (w, s)
+    return chosen
+
+
+def _batch_units(inst, handle):
+    """the BatchTasks of a batching call: name, members (task indices, the scheduler's order), strategy index"""
+    w = handle["world"]
+    units = []
+    for b in handle.get("batches", []):
+        if not b["members"]:
+            continue
+        k = w.strat_index(b["members"][0] - 1, b["strategy"])
+        units.append({"name": b["name"], "members": list(b["members"]), "k": k, "state": b["state"], "strategy": b["strategy"]})
+    return units
+
+
+class BatchGurobiView(GurobiView):
+    """ILP with batching=True: the model has one start / placement variable set per BatchTask"""
+
+    def __init__(self, inst, handle):
+        import gurobipy as gp
+
+        self.gp = gp
+        self.inst, self.world = inst, handle["world"]
+        self.kind = "ilp"
+        src = handle["model"]
+        src.update()
+        self.m = src.copy()
+        m = self.m
+        m.Params.OutputFlag = 0
+        m.Params.Threads = 1
+        m.Params.TimeLimit = 20
+        m.Params.MIPGap = 0
+        m.setObjective(0, gp.GRB.MAXIMIZE)
+        m.update()
+        self.byname = {v.VarName: v for v in m.getVars()}
+        self.dtasks = [ti + 1 for ti, t in enumerate(inst["tasks"]) if t["dec"]]
+        US = self.world.N.EventTime.Unit.US
+        self.units = []
+        for u in _batch_units(inst, handle):
+            if u["state"] == 4:  # RUNNING: constants of the model
+                continue
+            u["start"] = self.byname.get(f"{u['name']}_start")
+            u["x"] = {}
+            st = u["strategy"]
+            for wi, worker in enumerate(self.world.workers, 1):
+                v = self.byname.get(f"{u['name']}_placed_on_{worker.name}_with_batch_size_{st.batch_size}_runtime_{st.runtime.to(US).time}")
+                if v is not None:
+                    u["x"][wi] = v
+            self.units.append(u)
+        self.saved = {}
+
+    def in_model(self):
+        covered = {t for u in self.units for t in u["members"]}
+        return bool(self.units) and all(u["start"] is not None for u in self.units) and any(t in covered for t in self.dtasks)
+
+    def feasible(self, d):
+        GRB = self.gp.GRB
+        chosen = _group_plan(self.inst, self.units, self.dtasks, d)
+        if chosen is None:
+            return False
+        try:
+            for i, u in enumerate(self.units):
+                if not any(t in self.dtasks and d[t - 1][0] >= 0 for t in u["members"]):
+                    continue
+                on = chosen.get(i)
+                if on is not None and on[0] not in u["x"]:
+                    return False
+                for wi, v in u["x"].items():
+                    val = 1 if on is not None and wi == on[0] else 0
+                    self._set(v, val, val)
+                if on is not None:
+                    self._set(u["start"], on[1], on[1])
+            self.m.Params.SolutionLimit = 1
+            self.m.Params.PoolSearchMode = 0
+            self.m.optimize()
+            st = self.m.Status
+            if st in (GRB.OPTIMAL, GRB.SOLUTION_LIMIT, GRB.SUBOPTIMAL):
+                return True
+            if st == GRB.INFEASIBLE:
+                return False
+            raise tlc.TLCMachineryError(f"gurobi status {st} on a fixed plan of {self.inst['name']}")
+        finally:
+            self._restore()
+            self.m.Params.SolutionLimit = 2000000000
+
+    def pool(self, cap, passes=2, seed=0, time_limit=3):
+        import random
+
+        GRB = self.gp.GRB
+        H = self.inst["horizon"]
+        m = self.m
+        seen, out = set(), []
+        try:
+            for u in self.units:
+                v = u["start"]
+                self._set(v, v.LB, min(v.UB, H))
+            rnd = random.Random(seed)
+            for ps in range(passes):
+                if ps == 0:
+                    m.setObjective(0, GRB.MAXIMIZE)
+                else:
+                    m.setObjective(self.gp.quicksum((1 + rnd.random()) * v for u in self.units for v in u["x"].values()), GRB.MAXIMIZE)
+                m.Params.PoolSearchMode = 2 if ps == 0 else 1
+                m.Params.PoolSolutions = 4 * cap
+                m.Params.SolutionLimit = 2000000000
+                m.Params.TimeLimit = time_limit
+                m.optimize()
+                if m.Status == GRB.INFEASIBLE:
+                    break
+                for i in range(m.SolCount):
+                    m.Params.SolutionNumber = i
+                    d = [[-1, 0, 0, 0] for _ in self.inst["tasks"]]
+                    for t in self.dtasks:
+                        d[t - 1] = [0, 0, 0, 0]
+                    for u in self.units:
+                        on = [wi for wi, v in u["x"].items() if v.Xn > 0.5]
+                        for t in u["members"]:
+                            if not on or t not in self.dtasks:
+                                continue
+                            d[t - 1] = [2, 0, 0, 0] if (len(on) > 1 or d[t - 1][0] in (1, 2)) else [1, on[0], int(round(u["start"].Xn)), u["k"]]
+                    key = json.dumps(d)
+                    if key not in seen and len(out) < cap:
+                        seen.add(key)
+                        out.append(d)
+        finally:
+            self._restore()
+            m.Params.TimeLimit = 20
+            m.Params.PoolSearchMode = 0
+            m.setObjective(0, GRB.MAXIMIZE)
+        return out
+
+
 class Z3View:
     def __init__(self, inst, handle):
         from z3 import z3
@@ -715,10 +1074,71 @@ class CplexView:
         return []
 
 
+class BatchCplexView(CplexView):
+    """TetriSched-CPLEX with batching=True: space-time cells per BatchTask; R only"""
+
+    def __init__(self, inst, handle):
+        self.inst, self.world = inst, handle["world"]
+        self.m = handle["model"]
+        self.m.context.cplex_parameters.threads = 1
+        self.dtasks = [ti + 1 for ti, t in enumerate(inst["tasks"]) if t["dec"]]
+        names = {}
+        for v in self.m.iter_variables():
+            if v.name:
+                names[v.name] = v
+        self.units = []
+        for u in _batch_units(inst, handle):
+            if u["state"] == 4:
+                continue
+            pat = re.compile(re.escape(u["name"]) + r"_placed_at_Worker_(\d+)_on_Time_(-?\d+)_with_strategy_" + re.escape(u["strategy"].id) + "$")
+            u["x"] = {}
+            for name, v in names.items():
+                mm = pat.match(name)
+                if mm:
+                    u["x"][(int(mm.group(1)), int(mm.group(2)))] = v
+            self.units.append(u)
+
+    def in_model(self):
+        return any(u["x"] for u in self.units)
+
+    def feasible(self, d):
+        chosen = _group_plan(self.inst, self.units, self.dtasks, d)
+        if chosen is None:
+            return False
+        touched = []
+        try:
+            for i, u in enumerate(self.units):
+                if not any(t in self.dtasks and d[t - 1][0] >= 0 for t in u["members"]):
+                    continue
+                on = chosen.get(i)
+                if on is not None and on not in u["x"]:
+                    return False  # no such cell: the model cannot express the plan
+                for kk, v in u["x"].items():
+                    touched.append((v, v.lb, v.ub))
+                    if kk == on:
+                        v.ub, v.lb = 1, 1
+                    else:
+                        v.lb, v.ub = 0, 0
+            sol = self.m.solve()
+            if sol is not None:
+                return True
+            st = str(self.m.solve_details.status).lower()
+            if "infeasible" in st:
+                return False
+            raise tlc.TLCMachineryError(f"cplex status {st!r} on a fixed plan of {self.inst['name']}")
+        finally:
+            for v, lo, hi in touched:
+                v.lb, v.ub = 0, 1
+                v.lb, v.ub = lo, hi
+
+
 def view_of(inst, handle):
     if handle.get("model") is None:
         return None
     kind = handle["kind"]
+    if inst["opts"].get("batching"):
+        v = BatchGurobiView(inst, handle) if kind == "gurobi" else BatchCplexView(inst, handle) if kind == "cplex" else None
+        return v if v is not None and v.in_model() else None
     v = GurobiView(inst, handle) if kind == "gurobi" else Z3View(inst, handle) if kind == "z3" else CplexView(inst, handle)
     return v if v.in_model() else None
 
@@ -817,7 +1237,7 @@ def enumerate_plans(insts, rule, timeout=600, agree=False):
         path = os.path.join(scratch, "insts.json")
         with open(path, "w") as f:
             json.dump([spec_inst(i) for i in insts], f)
-        extra = REG_INIT + ("ASSUME EnumAgrees\n" if agree else "")
+        extra = REG_INIT + ("ASSUME EnumAgrees(NInsts)\n" if agree else "")
         mod, cf = mcgen.write_mc(
             scratch, "PlanRules", _constants(insts=f'JsonDeserialize("{path}")', ninsts=len(insts), rule=rule),
             name="MC_PlanEnum", init_next=("EnumInit", "EnumNext"), invariants=["EnumEmit"], extra_defs=extra,
@@ -886,16 +1306,38 @@ def run_chunk(tag, insts, rule, cfg):
     cnt = out["counters"]
     real = []
     for inst in insts:
-        try:
-            inst2, dec, info, handle = realize(inst)
-        except tlc.TLCMachineryError:
-            raise
-        real.append((inst2, dec, info, handle))
-        out["records"].append({"src": "returned", "inst": inst2, "dec": dec, "info": info})
-        cnt["calls"] = cnt.get("calls", 0) + 1
-        if info.get("raised"):
-            cnt["raised"] = cnt.get("raised", 0) + 1
-            out["notes"].append(f"{inst['name']}: schedule() raised {info['raised']}")
+        if inst.get("steps"):
+            # a multi-invocation scenario: every invocation is a call record (and a captured model) of its own
+            answers = realize_steps(inst)
+            cnt["scenarios"] = cnt.get("scenarios", 0) + 1
+            if len(answers) < len(inst["steps"]):
+                cnt["scenarios_cut_short"] = cnt.get("scenarios_cut_short", 0) + 1
+        else:
+            answers = [realize(inst)]
+        for inst2, dec, info, handle in answers:
+            cnt["calls"] = cnt.get("calls", 0) + 1
+            if info.get("raised") and inst.get("steps"):
+                # no answer to judge (a crash is C10's business); the scenario ended here
+                cnt["raised"] = cnt.get("raised", 0) + 1
+                out["notes"].append(f"{inst2['name']}: schedule() raised {info['raised']}")
+                continue
+            real.append((inst2, dec, info, handle))
+            out["records"].append({"src": "returned", "inst": inst2, "dec": dec, "info": info})
+            if inst2.get("step", 1) > 1:
+                cnt["later_invocations"] = cnt.get("later_invocations", 0) + 1
+            for b in handle.get("batches", []):
+                dls = [inst2["tasks"][t - 1]["deadline"] for t in b["members"]]
+                if b["state"] == 3 and len(set(dls)) > 1:
+                    cnt["rebuilt_scheduled_batches_with_different_deadlines"] = cnt.get("rebuilt_scheduled_batches_with_different_deadlines", 0) + 1
+                    if dls[0] != min(dls):
+                        cnt["rebuilt_scheduled_batches_tightest_member_not_first"] = (
+                            cnt.get("rebuilt_scheduled_batches_tightest_member_not_first", 0) + 1
+                        )
+            if info.get("raised"):
+                cnt["raised"] = cnt.get("raised", 0) + 1
+                out["notes"].append(f"{inst2['name']}: schedule() raised {info['raised']}")
+            if info.get("stopped"):
+                out["notes"].append(f"{inst2['name']}: scenario stopped after this invocation ({info['stopped']})")
     out["timing"]["calls_s"] = round(time.time() - t0, 2)
     # views of the captured models
     t1 = time.time()
@@ -926,13 +1368,20 @@ def run_chunk(tag, insts, rule, cfg):
     out["timing"]["pool_s"] = round(time.time() - t1, 2)
     # R
     t2 = time.time()
+    r_from = cfg.get("r_from_invocation", 1)  # multi-invocation scenarios: R on the invocations >= this one
     elig = [
         i for i, ((inst2, dec, info, handle), v) in enumerate(zip(real, views))
-        if v is not None and options_product(inst2) <= cfg.get("max_product", 60000)
+        if v is not None and options_product(inst2) <= cfg.get("max_product", 60000) and inst2.get("step", 1) >= r_from
     ]
     for i, ((inst2, dec, info, handle), v) in enumerate(zip(real, views)):
-        if v is not None and i not in elig:
+        if v is not None and i not in elig and inst2.get("step", 1) >= r_from:
             cnt["r_skipped_too_large"] = cnt.get("r_skipped_too_large", 0) + 1
+    if len(elig) > cfg.get("r_max_instances", 10**9):
+        # a budget per chunk: records with a SCHEDULED task that is planned again first, the rest seeded
+        rsel = random.Random(f"{cfg.get('seed', 0)}:{tag}:r")
+        order = sorted(elig, key=lambda i: (not any(t["must"] for t in real[i][0]["tasks"]), rsel.random()))
+        cnt["r_not_selected"] = cnt.get("r_not_selected", 0) + len(elig) - cfg["r_max_instances"]
+        elig = sorted(order[: cfg["r_max_instances"]])
     if elig and cfg.get("plan_cap", 0) > 0:
         plans, tr = enumerate_plans([real[i][0] for i in elig], rule, timeout=cfg.get("tlc_timeout", 600), agree=cfg.get("agree", False))
         out["tlc"] = {"distinct": tr.distinct, "generated": tr.generated, "wall_s": round(tr.wall_s, 2)}
@@ -977,13 +1426,19 @@ def compact_inst(inst, dec=None):
         "tasks": [
             {
                 "task": f"T{i + 1}", "state": t["state"], "release": t["release"], "deadline": t["deadline"],
-                "strategies": [[s["dem"], s["rt"]] for s in t["strats"]], "parents": [f"T{p}" for p in t["parents"]],
+                "strategies": [[s["dem"], s["rt"]] + ([s["bs"]] if s.get("bs", 1) != 1 else []) for s in t["strats"]],
+                "parents": [f"T{p}" for p in t["parents"]],
                 **({"current": t["cur"], "expected_finish": t["fin"]} if t["state"] in ("RUN", "SCHED", "DONE") else {}),
+                **({"profile": t["prof"]} if t.get("prof") else {}),
+                **({"released_before_invocation": t["phase"]} if t.get("phase", 1) > 1 else {}),
                 "offered": t["offered"],
             }
             for i, t in enumerate(inst["tasks"])
         ],
     }
+    if inst.get("steps"):
+        d["invocation"] = inst.get("step", 1)
+        d["invocation_times"] = inst["steps"]
     if dec is not None:
         d["decisions"] = [
             {"task": f"T{i + 1}", **({"kind": e["kind"], "worker": e["w"], "start": e["s"], "strategy": e["k"]} if e["kind"] == "place" else {"kind": e["kind"]})}
